@@ -99,10 +99,21 @@ def valLen (v : Val) : Option Nat :=
   match v with
   | .seq _ xs => some xs.length
   | .map kvs => some kvs.length
-  | .atom a => match Json.parse a with
-    | .ok j => match obj? j "s" with
+  | .atom a =>
+    -- `len(value)`, or `len(str(value))` for a value without `__len__` (rule.py:1030-1080)
+    match Json.parse a with
+    | .ok (.bool b) => some (if b then 4 else 5)
+    | .ok .null => some 4
+    | .ok j =>
+      match obj? j "s" with
       | some (.str s) => some s.length
-      | _ => none
+      | _ =>
+        match obj? j "i" with
+        | some (.str s) => some s.length
+        | _ =>
+          match obj? j "f" with
+          | some (.str s) => some s.length
+          | _ => none
     | _ => none
 
 def checkCons (cons : List (String × Int)) (k : Nat) (v : Val) : Option Val :=
